@@ -27,6 +27,7 @@ Import ListNotations. Open Scope float_scope."""
 COQ_CHECK = "check_c20"
 COQ_LABELS = ["return_values", "final_elements", "final_vertices", "final_queries"]
 
+MAX_TRIA = 130
 BASE_OPS = [["orient_"], ["refine_", 1], ["rm_free_vertices_"], ["normalize_"], ["smooth_", 1], ["normal_offset_", 0.1]]
 
 
@@ -66,6 +67,8 @@ def generate(rng, tier):
             for seq in itertools.product(range(len(BASE_OPS)), repeat=L):
                 if sum(1 for k in seq if k == 1) > 2:
                     continue
+                if len(t) * 4 ** sum(1 for k in seq if k == 1) > MAX_TRIA:
+                    continue          # the in-Coq evaluation of orient_ is quadratic: keep refined meshes small
                 cases.append({"kind": "tria_hist", "family": name, "v": v, "t": t, "ops": [BASE_OPS[k] for k in seq]})
         for _ in range(6 if tier == "quick" else 60):
             L = rng.randint(4, 6)
@@ -74,7 +77,7 @@ def generate(rng, tier):
                 op = rng.choice([["orient_"], ["refine_", rng.choice([0, 1, 2])], ["rm_free_vertices_"], ["normalize_"],
                                  ["smooth_", rng.choice([0, 1, 3])], ["normal_offset_", rng.choice([0.1, -0.05, 0.3])]])
                 if op[0] == "refine_":
-                    if nref + op[1] > 2:
+                    if nref + op[1] > 2 or len(t) * 4 ** (nref + op[1]) > MAX_TRIA:
                         continue
                     nref += op[1]
                 ops.append(op)
